@@ -33,7 +33,7 @@ func (v *mapCollection) Next() (bool, error) {
 	if err = v.context.Context.Err(); err == nil {
 		ok, err = v.i.Next()
 		if ok && err == nil {
-			frames[0].Value = reflect.ValueOf(v.i.Value())
+			frames[0].Value = api.ValueOf(v.i.Value())
 			frames[0].Expression = v.i.ValueExpression()
 			v.v, err = v.context.VM.CallWithArgsAndExpressions(v.context, v.f, frames[0:1])
 		}
@@ -230,7 +230,7 @@ func (m *mapParallelCollection) run() {
 		g.Go(func() error {
 			var frames [1]api.StackFrame
 			for pair := range in {
-				frames[0].Value = reflect.ValueOf(pair.Value)
+				frames[0].Value = api.ValueOf(pair.Value)
 				frames[0].Expression = pair.ValueExpression
 				v, err := context.VM.CallWithArgsAndExpressions(context, m.f, frames[0:1])
 				if err == nil {
